@@ -788,7 +788,10 @@ func init() {
 		Amplify: amplifyAPI,
 		Designs: append(histDesigns("assume"),
 			core.Design{Name: "incremental-keep", Module: "Incremental", Cfg: "Incremental_keep.cfg", Workers: 6, XmxMB: 4000, Timeout: 5 * time.Minute},
-			core.Design{Name: "incremental-wipe", Module: "Incremental", Cfg: "Incremental_wipe.cfg", Workers: 1, XmxMB: 2000, Timeout: 5 * time.Minute, ExpectViolation: "RefinesAPI"}),
+			core.Design{Name: "incremental-wipe", Module: "Incremental", Cfg: "Incremental_wipe.cfg", Workers: 1, XmxMB: 2000, Timeout: 5 * time.Minute, ExpectViolation: "RefinesAPI"},
+			core.Design{Name: "cdcl-under-assumptions", Module: "CDCLAssume", Cfg: "CDCLAssume_quick.cfg", Tier: "quick", Workers: 6, XmxMB: 8000, Timeout: 20 * time.Minute},
+			core.Design{Name: "cdcl-under-assumptions", Module: "CDCLAssume", Cfg: "CDCLAssume_thorough.cfg", Tier: "thorough", Workers: 16, XmxMB: 12000, Timeout: 60 * time.Minute},
+			core.Design{Name: "cdcl-assumption-shortcut", Module: "CDCLAssume", Cfg: "CDCLAssume_shortcut.cfg", Workers: 4, XmxMB: 4000, Timeout: 10 * time.Minute, ExpectViolation: "LearnEntailed"}),
 		TraceModule: "APITrace",
 		Cases: func(env *core.Env) []core.Case {
 			r := env.Rand
